@@ -43,7 +43,9 @@ BOUNDARY = (list(range(56, 72)) + list(range(124, 132)) + list(range(193, 201)) 
             + list(range(55230, 55241)) + list(range(57280, 57291)) + list(range(65470, 65481))
             + [100000, 1000000] + list(range(1114040, 1114053)))
 UNREPRESENTABLE = [-1, -70, 1114053, 2 ** 31, 2 ** 32 - 60, 2 ** 32 - 59, 2 ** 32, 2 ** 32 + 5, 2 ** 33, 2 ** 40 + 7,
-                   2.7, 0.5, 68.5, 1234.25, -0.5]
+                   2.7, 0.5, 68.5, 1234.25, -0.5,
+                   # integral only up to rounding: still not an exponent (never rounded or truncated silently)
+                   0.29 * 100, 1.999999999, 2.0000001, 1e-9, 68.99999999999999]
 
 
 # with two or more indeterminates the storage keys take exponents up to 2**32-60: products and powers whose
